@@ -81,6 +81,20 @@ let exec toks =
           s_res s_n vv;
           s_res (fun x -> s_hr (hr_from x)) vv ] in
       String.concat " " (if n = 5 then base @ [ s_res s_n (evaluate_five_cards c ws) ] else base)
+  | "rankv" ->
+      let ws = List.tl (nums ()) in
+      let hrv = hand_rank_value c ws in
+      let vv = hand_rank_value_validated c ws in
+      String.concat " " [ s_res s_n hrv; s_res s_n hrv; s_res (fun (x, _) -> s_n x) (hrvh c ws); s_res s_n vv; s_res s_n vv ]
+  | "vrank" ->
+      let v = nums () in
+      let n = int_of_n (List.hd v) in
+      let ws = List.tl v in
+      let valid = is_valid ws in
+      let vv = hand_rank_value_validated c ws in
+      let base = [ s_b valid; s_res s_n vv; s_res (fun x -> s_hr (hr_from x)) vv ] in
+      let base = if valid then base @ [ s_res s_n (hand_rank_value c ws) ] else base in
+      String.concat " " (if n = 5 then base @ [ s_res s_n (evaluate_five_cards c ws) ] else base)
   | "rankp" ->
       let v = nums () in
       let n = int_of_n (List.hd v) in
